@@ -588,6 +588,13 @@ def _run_dfi(case, M, steady):
             'filters': len(filters)}
     got = _fastjit(ti.digital_filter_initialization(eq, solver, filters, ts, cutoff, dt), u0)
     umax = max(float(np.abs(np.asarray(l)).max()) for l in jax.tree_util.tree_leaves(u0))
+    # history: the initialisation function built and traced a second and third time with the same
+    # parameters in the same process must give the same state (no weights carried between calls)
+    for rep in (2, 3):
+      again = _fastjit(ti.digital_filter_initialization(eq, solver, filters, ts, cutoff, dt), u0)
+      for g, g2 in zip(jax.tree_util.tree_leaves(got), jax.tree_util.tree_leaves(again)):
+        M.close('dfi_repeated_construction_gives_same_result', g2, g, TOL, scale=umax * (2 * N + 1),
+                info=dict(info, repetition=rep))
     if steady:
       # N(u*) = 0 with F(u*) = -G u* != 0: every consistent step leaves u* unchanged, and the
       # normalised weights sum to one
